@@ -30,6 +30,8 @@ MODES = {
     "builtin_exit_0": ("exit(0)", True),
     "sys_exit_3": ("sys.exit(3)", False),
     "sys_exit_msg": ("sys.exit('stop: invalid input')", False),
+    "sys_exit_empty_str": ("sys.exit('')", False),
+    "sys_exit_empty_list": ("sys.exit([])", False),
     "uncaught_exception": ("raise ValueError('boom')", False),
     "keyboard_interrupt": ("raise KeyboardInterrupt()", False),
     "raise_systemexit_1": ("raise SystemExit(1)", False),
